@@ -221,6 +221,10 @@ def case_strategy(draw):
         argv = list(prog.argv) + draw(st.sampled_from([[], ["-fstrict-done-token-generation"], ["-fallocate-str-space-dynamic"]]))
         datas = [bytes(draw(st.lists(st.sampled_from(list(b"abxcdqef")), min_size=2, max_size=6))) for _ in range(3)]
         return prog, argv, datas, []
+    if draw(st.integers(0, 7)) == 0:
+        prog, datas = draw(gen.break_loop_program())
+        argv = list(prog.argv) + draw(options.codegen_options(indirect=None))
+        return prog, argv, datas[:6], []
     mode = draw(st.sampled_from(["plain", "plain", "yield", "yield", "eof"]))
     cfg = gen.GenConfig(max_depth=2, max_stmts=5, allow_yield=(mode == "yield"), allow_end=(mode == "eof"),
                         kinds={"yield": 3 if mode == "yield" else 0, "append": 4, "hook": 4, "match": 8, "if": 3}, wide_bytes=0.05)
